@@ -69,10 +69,19 @@ fn outcome_line(o: &Out) -> String {
 
 impl Sim {
     pub fn new(dir: &std::path::Path, cfg: Cfg) -> Result<Sim, String> {
-        let eng = Eng::create(dir, cfg)?;
+        Ok(Sim::new_with(Eng::create(dir, cfg)?))
+    }
+
+    fn new_with(eng: Eng) -> Sim {
         let mut stats = RunStats::default();
         stats.fingerprint = 0xcbf29ce484222325;
-        Ok(Sim { eng, model: Model::new(), txmap: BTreeMap::new(), stats, began_at: BTreeMap::new(), commits_seen: 0, allow_oom: false, allow_d26: false, halted: false, zombies: Default::default(), page_audit: false })
+        (Sim { eng, model: Model::new(), txmap: BTreeMap::new(), stats, began_at: BTreeMap::new(), commits_seen: 0, allow_oom: false, allow_d26: false, halted: false, zombies: Default::default(), page_audit: false })
+    }
+
+    pub fn new_served(dir: &std::path::Path, cfg: Cfg, scfg: crate::served::ServedCfg) -> Result<Sim, String> {
+        let mut sim = Sim::new_with(Eng::create_served(dir, cfg, scfg)?);
+        sim.stats.bump("served_runs");
+        Ok(sim)
     }
 
     fn viol(&self, oracle: &str, i: usize, detail: String) -> Violation {
@@ -83,6 +92,9 @@ impl Sim {
         let p = util::take_panics();
         if !p.is_empty() {
             return Err(self.viol("O-live", i, format!("engine thread panicked: {}", p.join(" | "))));
+        }
+        if let Some(f) = self.eng.wire_fault() {
+            return Err(self.viol("O-wire", i, f));
         }
         Ok(())
     }
@@ -103,6 +115,11 @@ impl Sim {
         if r.is_ok() {
             self.check_live(i)?;
         } else {
+            if let Some(f) = self.eng.wire_fault() {
+                // whatever the SQL-level oracle said, the cause is below it
+                let _ = util::take_panics();
+                return Err(self.viol("O-wire", i, f));
+            }
             // attach panic info if any
             let p = util::take_panics();
             if !p.is_empty() {
@@ -432,7 +449,7 @@ impl Sim {
     /// C11: every page of the file except page zero is a node of exactly one tree, a link of
     /// exactly one overflow chain referenced by one leaf cell, or a member of the free list.
     fn audit_pages(&mut self, i: usize) -> Result<(), Violation> {
-        let d = axmosdb::verif::facade::dbpages::dump(self.eng.db());
+        let d = self.eng.with_db(axmosdb::verif::facade::dbpages::dump);
         self.stats.bump("page_audits");
         if let Some(e) = &d.error {
             return Err(self.viol("O-pages", i, format!("page graph walk failed: {e}")));
@@ -654,6 +671,9 @@ impl Sim {
         self.stats.add("cache_misses", misses);
         self.close_sessions();
         self.eng.close();
+        for (k, v) in self.eng.served_stats() {
+            self.stats.add(&format!("served_{k}"), v);
+        }
         let _ = util::take_panics();
         self.stats.hazards = std::mem::take(&mut self.model.hazards);
         self.stats
